@@ -3,6 +3,7 @@ CONSTANTS
   UsesGlobal = FALSE
   UsesHistory = FALSE
   UsesProcess = FALSE
+  UsesConcurrent = FALSE
   Emit = TRUE
 INIT Init
 NEXT Next
